@@ -1311,7 +1311,7 @@ static void bufr_put_af_compressed( BUFR_Message *msg, BUFR_Dataset *dts, BufrDe
       }
    else
       {
-      bufr_putbits( msg, umin, bcv->encoding.nbits );  /* REF */
+      bufr_putbits( msg, umin, bcv->value->af->nbits );  /* REF: width of the associated field, as the decoder reads it */
       umax -= umin;
       nbinc = bufr_value_nbits( umax );
       bufr_putbits( msg, nbinc, 6 );          /* NBINC */
